@@ -331,6 +331,7 @@ func suiteTreeFrame(env *Env, res *Result) {
 		x := runs[i]
 		x.res, x.after = execTreeCmd(env, x.t.files, x.cmd, x.dmode)
 	})
+	var caseRun []*treeRun
 	var cases []CorrCase
 	for _, x := range runs {
 		before := x.t.files
@@ -450,9 +451,31 @@ func suiteTreeFrame(env *Env, res *Result) {
 			cfg := x.t.cfg
 			cases = append(cases, CorrCase{Fields: []string{"cli", x.cmd.model, hx(cfg[0]), hx(cfg[1]), hx(cfg[2]), hx(cfg[3]), hx(cfg[4]), hx(cfg[5]), hx(x.cmd.a1), hx(x.cmd.a2), targ},
 				Impl: st + "\t" + chs, Human: x.cmd.name + " [" + x.dmode + "] on tree with " + strconv.Itoa(len(order)) + " files; rules file " + x.t.rules.Name, Class: cls})
+			caseRun = append(caseRun, x)
 		}
 	}
-	compareWithModelAlt(env, res, cases)
+	modelOuts := compareWithModelAlt(env, res, cases)
+	// C18: a run that disagrees with the model although the root was not given as -d ROOT is repeated
+	// with -d ROOT on a fresh copy of the same tree: the way the root is given must not change the result
+	for i, x := range caseRun {
+		if modelOuts == nil || i >= len(modelOuts) || x.dmode == "d-root" {
+			continue
+		}
+		if modelOuts[i] == cases[i].Impl || (strings.HasPrefix(modelOuts[i], "ORDER-DEPENDENT\t") && inAlternatives(modelOuts[i], cases[i].Impl)) {
+			continue
+		}
+		r2, after2 := execTreeCmd(env, x.t.files, x.cmd, "d-root")
+		same := (r2.Exit == 0) == (x.res.Exit == 0)
+		for p, c := range x.after {
+			if after2[p] != c {
+				same = false
+			}
+		}
+		if !same {
+			res.addFailure(Failure{Kind: "C18", Shape: "c18_result_depends_on_how_the_root_is_given", Input: map[string]interface{}{"command": strings.Join(x.cmd.args, " "), "root_mode": x.dmode, "tree": x.t.files},
+				Detail: fmt.Sprintf("root given as %s: exit %d; the same command on the same tree with -d ROOT: exit %d", x.dmode, x.res.Exit, r2.Exit)})
+		}
+	}
 
 	// --check agrees with the rewrite (C09 for format, C13 for renumber-tests): per tree, the check
 	// run must fail exactly when the corresponding rewriting run changes a file, and must not write
